@@ -130,8 +130,20 @@ func (r *rep) iter(tr *tracer.T, op m.Op) {
 		die("iter: %v", err)
 	}
 	var chunks []m.Resp
-	collectSeq(res, func(x *regattapb.ResponseOp_Range) { chunks = append(chunks, m.RangeResp(x)) })
+	var kept []*regattapb.ResponseOp_Range
+	collectSeq(res, func(x *regattapb.ResponseOp_Range) { chunks = append(chunks, m.RangeResp(x)); kept = append(kept, x) })
 	tr.Emit(map[string]any{"ev": "iter", "rep": r.id, "op": op, "chunks": chunks})
+	// a consumer that keeps the messages until the sequence has ended (as a collecting reader does) must hold the same
+	// answer as one that uses each message at once; when it does not, its answer is judged as well
+	late := make([]m.Resp, 0, len(kept))
+	for _, x := range kept {
+		late = append(late, m.RangeResp(x))
+	}
+	a, _ := json.Marshal(chunks)
+	b, _ := json.Marshal(late)
+	if !bytes.Equal(a, b) {
+		tr.Emit(map[string]any{"ev": "iter", "rep": r.id, "op": op, "chunks": late})
+	}
 }
 
 // iter2 : two lazy range sequences are created before either is consumed, then consumed in
